@@ -724,6 +724,16 @@ inductive ReachableSnap (ext : Ext) (fuel : Nat) : World → Block → Prop
   | step {w : World} {b : Block} (op : Op) : ReachableSnap ext fuel w b → C04.later b op.blk →
       ReachableSnap ext fuel (step ext fuel w op) op.blk
 
+/-- The hypotheses of `ReachableSnap.init` about the group hold for every freshly instantiated cw4-group (instantiated at
+height `h0`): the multisig may be instantiated on it and any history at blocks `≥ h0` that never go back follows. -/
+theorem ReachableSnap.init_of_group_instantiate {ext : Ext} {fuel : Nat} {gm : Cw4Group.InstMsg} {h0 : Nat}
+    {g : Cw4Group.State} (hg : Cw4Group.instantiate gm h0 = .ok g) {m : InstMsg} {s : State}
+    (hi : instantiate m (some g) = .ok s) (t : Cw20.State) (bank : AMap (Addr × String) Nat) (self ga ta : Addr)
+    (b : Block) (hb : h0 ≤ b.height) : ReachableSnap ext fuel (World.init s g t bank self ga ta h0) b := by
+  have hsb := CwPlus.Props.C09.instantiate_sameBlock hg
+  exact ReachableSnap.init g t bank self ga ta h0 b hi (CwPlus.Props.C09.instantiate_inv hg)
+    (hsb.1.logLe (SnapMap.logLe_empty h0) (Nat.le_refl _)) (hsb.2.logLe (Cell.logLe_empty h0) (Nat.le_refl _)) hb
+
 theorem ReachableSnap.reachableAt {ext : Ext} {fuel : Nat} {w : World} {b : Block} (h : ReachableSnap ext fuel w b) :
     ReachableAt ext fuel w b := by
   induction h with
